@@ -29,12 +29,17 @@ def load_table():
 
 
 def cmp_vars(b, st, depth=2):
-    """variable names involved in a comparison statement, looking through one level of arithmetic / calls"""
-    from flow import source_names, origins, is_local_op
+    """variable names (and integer constants, as '#<n>') involved in a comparison statement, looking through one level of arithmetic / calls"""
+    from flow import source_names, origins, is_local_op, const_val
+    import re as _re
     out = set()
 
     def add(o, d):
         if not is_local_op(o):
+            v = const_val(o)
+            m = _re.match(r'^(\d+)', str(v)) if v is not None else None
+            if m:
+                out.add('#' + m.group(1))
             return
         out.update(source_names(b, o))
         if d <= 0:
@@ -44,6 +49,11 @@ def cmp_vars(b, st, depth=2):
                 continue
             if org[0] == 'place':
                 out.update(source_names(b, {'l': org[1]['l'], 'p': []}))
+                # `_t.0` of a checked arithmetic: look at the operands of the statement that defines _t
+                from flow import defs_of
+                for p2, s3 in defs_of(b, org[1]['l']):
+                    if s3.get('k') == 'assign' and s3['rv']['k'] == 'bin':
+                        add(s3['rv']['a'], d - 1); add(s3['rv']['b'], d - 1)
                 continue
             s2 = org[1]
             if s2.get('k') == 'assign' and s2['rv']['k'] == 'bin':
@@ -70,10 +80,12 @@ def requirement_holds(P, b, req):
         return any(call_matches(t, rest) for x in bodies for pos, t in x.iter_calls())
     if kind == 'cmp':
         op, _, var = rest.partition(':')
+        var, _, const = var.partition(':')
         for x in bodies:
             for pos, st in x.iter_stmts():
                 if st['k'] == 'assign' and st['rv']['k'] == 'bin' and st['rv']['op'] in (op, FLIP.get(op)):
-                    if var in cmp_vars(x, st):
+                    cv = cmp_vars(x, st)
+                    if var in cv and (not const or ('#' + const) in cv):
                         return True
         return False
     return False
